@@ -157,7 +157,22 @@ def parse_data(s):
     return dup, rows
 
 
-def oracle_data(tc, s):
+def oracle_export(tc, s):
+    toks = s.split()
+    if toks[0] != "E" or not toks[-1].startswith("bad="):
+        return "unparsable export: " + s[:80]
+    for k, tok in enumerate(toks[1:-1]):
+        i, v = tok.split("=")
+        if v != "%s:%s" % (i, i):
+            return "entry %s holds data/results of particles %s" % (i, v)
+    if len(toks) - 2 != tc.N:
+        return "%d entries for %d particles" % (len(toks) - 2, tc.N)
+    if toks[-1] != "bad=0":
+        return "exported values differ from the stored ones (%s)" % toks[-1]
+    return None
+
+
+def oracle_data(tc, s, rhs_set=False):
     dup, rows = parse_data(s)
     if dup:
         return "%d particles stored twice" % dup
@@ -170,8 +185,9 @@ def oracle_data(tc, s):
             return "particle %d in leaf %d, expected %d" % (i, gli, li)
         if [x.hex() for x in gv] != [float(x).hex() for x in vals]:
             return "particle %d data %s != input %s" % (i, gv, vals)
-        if rhs != "r0,0":
-            return "particle %d initial rhs %s != 0" % (i, rhs)
+        erhs = "r%d,%d" % (1000 + 7 * i, -3 - 11 * i) if rhs_set else "r0,0"
+        if rhs != erhs:
+            return "particle %d result values %s, expected %s" % (i, rhs, erhs)
     return None
 
 
